@@ -42,8 +42,12 @@ class RefServer:
 
     def etag(self, index):
         c = self.case
-        if c["misbehaviour"] == "etag_change" and index >= max(1, c.get("mis_at", 1)):
-            return b"E2"
+        if c["misbehaviour"] == "etag_change":
+            # "ETag differs": another value, an ETag where there was none, or none where there was one
+            mode = c.get("etag_mode", "value")
+            if index >= max(1, c.get("mis_at", 1)):
+                return None if mode == "disappears" else b"E2"
+            return None if mode == "appears" else b"E1"
         return b"E1" if c.get("etag", True) else None
 
     def response_slice(self, offset, szx):
@@ -304,6 +308,7 @@ def _case(draw):
         case["shrink2_to"] = draw(st.integers(0, 5))
     if case["misbehaviour"] == "etag_change":
         case["etag"] = True
+        case["etag_mode"] = draw(st.sampled_from(["value", "appears", "disappears"]))
     if draw(st.integers(0, 3)) == 0:
         case["fates"] = draw(st.lists(st.sampled_from([["deliver", 0.001]] * 5 + [["drop"], ["dup", 0.001, 0.3], ["deliver", 1.2]]), max_size=10))
     return case
@@ -327,7 +332,7 @@ RULE = (
     "One block-wise request (PUT/POST/FETCH/GET) through the default API of a real aiocoap client to an independent RFC 7959 reference server on a raw peer; generated: request and response "
     "body lengths from {0,1,15,16,17,31,32,33,63,64,65,1023,1024,1025,1124,1125,2048,2049,3000,5000}, client maximum_block_size_exp 0-6, the server's Block1 size preference per block index "
     "(non-increasing => mid-transfer reductions; optionally advertised even when larger than what the client sends), its Block2 size and an optional mid-transfer Block2 reduction with renumbering, ETag present or not, datagram fates (drop/dup/delay), and a "
-    "misbehaviour (none / wrong NUM in a Block1 ack / M=1 or 2.31 on the final ack / non-final Block2 payload short by one byte, half a block or the whole block / over-long final Block2 payload / Block2 NUM skipped or repeated / ETag change). "
+    "misbehaviour (none / wrong NUM in a Block1 ack / M=1 or 2.31 on the final ack / non-final Block2 payload short by one byte, half a block or the whole block / over-long final Block2 payload / Block2 NUM skipped or repeated / ETag changes its value, appears or disappears between blocks). "
     "Oracle: conforming server => body reassembled by the reference server == API payload, result payload == representation, expected code, action executed once, and the reference server found every "
     "Block1/Block2 option contiguous (NUM x size == bytes so far), M exactly on non-final blocks, exponent never growing; failure only as NetworkError under loss. Misbehaving server (once the "
     "misbehaviour was actually applied) => the request must end in an aiocoap.error.Error; any result is a violation. Never a result whose payload differs from the representation. "
